@@ -10,6 +10,15 @@ def check(ctx):
     from rules import tz as _tzz
     nz = _tzz.check_zone_names(ctx, rep)
     rep.floor("zone-name table obligations (T-ZONES)", nz, 2)
+    # literals are printed by the Zinc scalar writers and read by the Zinc scalar readers: the literal-level rules of C01 apply
+    from rules import escapes as _esc
+    ne1 = _esc.check_str(ctx, rep)
+    ne2 = _esc.check_uri(ctx, rep)
+    rep.floor("Str / Uri escape transducer obligations", ne1 + ne2, 13)
+    _tzz.check_utc_guard(ctx, rep)
+    _tzz.check_offset_fields(ctx, rep)
+    ntz = _tzz.check(ctx, rep)
+    rep.floor("zone-mapping call sites (R-TZ)", ntz, 10)
     n1 = filters.check_spellings(ctx, rep)
     n2 = filters.check_path_rule(ctx, rep)
     n3 = filters.check_skeleton(ctx, rep)
@@ -25,7 +34,7 @@ def check(ctx):
     rep.floor("node spellings / literal readers checked", n1, 13)
     rep.floor("path must-pass instances", n2, 1)
     rep.floor("parser skeleton functions", n3, 6)
-    rep.note("Not decided: exact literal values after re-parse (inherits the gaps of C01).")
+    rep.note("Literal values after re-parse: decided to the extent C01 decides them for scalars (escape transducers of Str / Uri, offset fields, zone guard, R-TZ); numbers beyond the no-arithmetic rule are not decided.")
     return ("Spelling round trip: every literal piece a node's Display emits (' or ', ' and ', 'not ', '( ' ' )', the six operators, ' *== ', '^', '?', '->') "
             "is accepted by the filter lexer's first-byte dispatch / the parser's keyword tests and leads back to the same node kind; literal values are "
             "read by the same scalar readers the Zinc writer's output is meant for. R-MUSTPASS: in parse_path every CFG path from recording a segment to "
